@@ -412,7 +412,7 @@ Definition geo_set (p : list R) := geo_new (nth 0 p 0).
 (* ------------------------------------------------------- negative binomial *)
 Record nb_d := { m_r : R; m_p : R; m_lp : ER; m_z : ER; m_c1 : ER }.
 Definition nb_new (r p : R) : option nb_d :=
-  if Rleb r 0 || Rltb p 0 || Rltb 1 p then None else
+  if Rleb r 0 || Rltb p 0 || Rleb 1 p then None else
   let t1 := esub (F 1) (F p) in
   let t1 := elog t1 in
   let t1 := emul t1 (F r) in
